@@ -373,6 +373,9 @@ CHECKS['C17']['jobs'] += _mode_jobs('MODE_CYCLE', [39], reach=('acyclic-built', 
 CHECKS['C06']['jobs'] += _mode_jobs('MODE_SCHED', [40], reach=('built',), bounds='a phony statement bound to the console pool becomes ready in the middle of the build; -j in {1,2,3}, every completion order')
 CHECKS['C20']['jobs'] += _mode_jobs('MODE_STATUS', [40], reach=('success', 'output-shown'), bounds='a phony statement bound to the console pool becomes ready in the middle of the build; -j in {1,2,3}, each command prints or not, every completion order')
 CHECKS['C20']['jobs'] += _mode_jobs('MODE_STATUS', [9, 5], extra=['SMART_TERMINAL', 'WITH_FAILURES'], suffix='_smart', reach=('success', 'failure', 'output-shown', 'smart-terminal'), bounds='stdout is a terminal of unknown width, 24 or 200 columns (LinePrinter smart mode: overprinted, elided status lines); -j in {1,2,3}, each command prints or not, any subset fails, -k in {1,2}, every completion order')
+CHECKS['C14']['jobs'].append(dict(name='callers', harness='c12_manifest.cc', units=_PARSE_UNITS + ['disk_interface'], defines=['MODE_SPELLINGS'], reach=['other-spelling', 'canonical-spelling', 'dyndep-file'],
+    bounds='6 spellings of one path x 9 places where a path enters ninja (explicit / implicit / order-only input, validation, default, output, implicit output, implicit input and statement of a dyndep file) x {LF, CRLF}'))
+CHECKS['C14']['level_text'] += ' A third job checks the places where a path enters ninja (every position of a manifest statement, default, dyndep file): whatever the spelling, the path must resolve to the one Node of the canonical name; depfile and deps-log paths are covered by C10/depfile_noncanonical_path, command-line targets by the C19 *_tools jobs (the target is also spelled ./name).'
 
 # ---- the real process layer (RealCommandRunner, SubprocessSet, Subprocess, PosixJobserverClient) over the modelled operating system of harness/osmodel.h
 _OS_WRAP = ['pipe', 'close', 'read', 'write', 'open', 'fstat', 'sigemptyset', 'sigaddset', 'sigismember', 'sigprocmask', 'sigpending', 'sigaction', 'posix_spawn_file_actions_init', 'posix_spawn_file_actions_destroy',
